@@ -38,11 +38,14 @@ def ref_row(kind, param, X, s, e):
     absolute error of a difference of two such prefix sums up to row e is bounded by
     C * eps * Q with Q_j = e * (2 * max_{t<e} |x_tj| + |m_j|)^2 per column (m = fixed
     mean, 0 in optimal mode), which dominates sum_{t<e} (x_t - shift)^2 for every such
-    shift.  C = 16."""
+    shift.  C = 16 (and at least (e + 8) / 2 for long series)."""
     Xs = X[s:e].astype(float)
     Xp = X[:e].astype(float)
     n, p = Xs.shape
-    CE = 2 * C * EPS
+    # worst case of recursive summation: each of the two prefix sums up to row e carries
+    # at most (e - 1) * eps / 2 times the sum of the absolute terms, so the constant has
+    # to grow with e for long series (it is 2 * C for e <= 24)
+    CE = max(2 * C, e + 8) * EPS
     M = np.abs(Xp).max(0)
 
     def Q(m):
@@ -754,7 +757,7 @@ RULE = (
 
 ASSUMPTIONS = [
     "prange iterations are independent and may run in any order (numba's contract); explored by permuting the pure-Python fallback loop",
-    "value bands follow the prefix-sum error model |err| <= 16 eps sum_{t<e} x_t^2 propagated through each formula",
+    "value bands follow the prefix-sum error model |err| <= max(32, e + 8) eps Q_j, Q_j = e (2 max|x| + |m|)^2, propagated through each formula",
     "multivariate cost: must-raise only for integer-valued slices with a constant column; either outcome accepted for duplicated columns or when lambda_min <= 1e-8 trace",
     "cross-batch agreement is required to 1e-12 relative, not bitwise",
     "data are 2-D (ndarray or DataFrame) of moderate dynamic range (|x| <= ~4e3)",
